@@ -26,7 +26,7 @@ def all_contracts():
 
 
 def _task(t):
-    modname, idx, case_i = t
+    modname, idx, case_i, shard = t
     sys.setrecursionlimit(10000)
     from pyvc.verify import verify_contract
     mod = importlib.import_module(modname)
@@ -37,7 +37,7 @@ def _task(t):
     c.cases = lambda: [case]
     t0 = time.time()
     try:
-        out = verify_contract(c)
+        out = verify_contract(c, shard=shard)
     except BaseException:
         c.cases = orig
         return {"target": c.target, "contract": type(c).__name__, "case": c.case_name(case), "crash": traceback.format_exc()[-2000:],
@@ -73,17 +73,34 @@ def run_property(pid, tier="quick", seed=0, jobs=None, only=None):
         if pid in c.properties and (only is None or only in c.target or only == type(c).__name__):
             if getattr(c, "thorough_only", False) and tier != "thorough":
                 continue
+            import itertools
             for ci, _ in enumerate(c.cases()):
-                tasks.append((modname, idx, ci))
+                for shard in itertools.product((True, False), repeat=getattr(c, "shard_bits", 0)):
+                    tasks.append((modname, idx, ci, shard))
     t0 = time.time()
     if not tasks:
         return {"tasks": [], "wall_s": 0.0}
-    jobs = jobs or min(16, len(tasks))
+    jobs = jobs or min(16, max(2, len(tasks)))
     if jobs == 1:
         outs = [_task(t) for t in tasks]
     else:
-        with mp.get_context("fork").Pool(jobs, maxtasksperchild=1) as pool:
-            outs = pool.map(_task, tasks, chunksize=1)
+        limit = float(os.environ.get("PYVC_TASK_TIMEOUT", 240 if tier == "quick" else 1500))
+        pool = mp.get_context("fork").Pool(jobs, maxtasksperchild=1)
+        outs = []
+        try:
+            asyncs = [(t, pool.apply_async(_task, (t,))) for t in tasks]
+            deadline = time.time() + limit
+            for t, a in asyncs:
+                try:
+                    outs.append(a.get(timeout=max(1.0, deadline - time.time())))
+                except mp.TimeoutError:
+                    mod = importlib.import_module(t[0])
+                    c = mod.CONTRACTS[t[1]]
+                    outs.append({"target": c.target, "contract": type(c).__name__, "case": c.case_name(c.cases()[t[2]]), "results": {},
+                                 "undecided": [f"{c.target}[{c.case_name(c.cases()[t[2]])}]: verification task exceeded the time limit of {limit:.0f}s"],
+                                 "errors": [], "paths": 0, "assumptions": [], "wall_s": limit})
+        finally:
+            pool.terminate()
     return {"tasks": outs, "wall_s": time.time() - t0}
 
 
